@@ -37,6 +37,7 @@ import (
 	"golang.org/x/crypto/chacha20poly1305"
 
 	"verif/harness/lib"
+	"verif/harness/norm"
 )
 
 type key struct {
@@ -54,6 +55,7 @@ type engine struct {
 	// badPub is a public key of a type the envelope code does not support (ECDSA P-256, verify-only adapter)
 	badPub crypto.PubKey
 	tcN    int // rotates the key-subset class of the C18 tamper cases
+	normAt int // rotates through the normalisations of harness/norm
 }
 
 // fakePriv is a crypto.PrivKey of an unsupported type: its public key cannot be marshalled to PEM,
@@ -1216,6 +1218,22 @@ func (e *engine) stringsTie(n int) {
 		if real == envelope.VerifBuildKeyDerivationContext(id, ctx) {
 			mon = "grant encryption context equals the key derivation context"
 		}
+		// input-normalisation pairs (harness/norm): a context / id and its image under a
+		// normalisation (hash of a long one, truncation, padding, trimming, folding …) never give
+		// the same string — a rotating sample of the normalisations per iteration
+		for _, nf := range e.normSample(8) {
+			if y := string(nf.F([]byte(ctx))); y != ctx && mon == "" {
+				e.rep.Branches["norm.ctxstring"]++
+				if real == envelope.VerifBuildGrantEncContext(id, y, gi) || envelope.VerifBuildKeyDerivationContext(id, ctx) == envelope.VerifBuildKeyDerivationContext(id, y) {
+					mon = fmt.Sprintf("the context strings of two different contexts are equal: a context of %d bytes and %s of it", len(ctx), nf.Name)
+				}
+			}
+			if y := string(nf.F([]byte(id))); y != id && mon == "" {
+				if real == envelope.VerifBuildGrantEncContext(y, ctx, gi) || envelope.VerifBuildKeyDerivationContext(id, ctx) == envelope.VerifBuildKeyDerivationContext(y, ctx) {
+					mon = fmt.Sprintf("the context strings of two different envelope ids are equal: an id of %d bytes and %s of it", len(id), nf.Name)
+				}
+			}
+		}
 		e.rep.Compare(op, e.m.Query(op), "ok "+lib.Hex([]byte(real)), "encctx", "envelope.encctx", mon)
 		op = fmt.Sprintf("envelope.kdctx id=%s ctx=%s", lib.Hex([]byte(id)), lib.Hex([]byte(ctx)))
 		realk := envelope.VerifBuildKeyDerivationContext(id, ctx)
@@ -1667,8 +1685,29 @@ func (e *engine) hashTie(n int) {
 				mon = fmt.Sprintf("two contexts of %d and %d bytes that agree on their first %d bytes and differ later have the same context hash", l, len(other), cut)
 			}
 		}
+		// … and a context and its image under a normalisation (harness/norm) have different hashes
+		for _, nf := range e.normSample(8) {
+			if y := nf.F([]byte(ctx)); !bytes.Equal(y, []byte(ctx)) && mon == "" {
+				e.rep.Branches["norm.ctxhash"]++
+				if bytes.Equal(envelope.VerifHashContext(string(y)), real) {
+					mon = fmt.Sprintf("two different contexts have the same context hash: a context of %d bytes and %s of it (%d bytes)", l, nf.Name, len(y))
+				}
+			}
+		}
 		e.rep.Compare(op, model, impl, "ctxhash", "envelope.ctxhash", mon)
 	}
+}
+
+// normSample: k normalisations, rotating through norm.All() (every one is used every
+// len(All)/k calls).
+func (e *engine) normSample(k int) []norm.Fn {
+	all := norm.All()
+	out := make([]norm.Fn, 0, k)
+	for i := 0; i < k; i++ {
+		out = append(out, all[e.normAt%len(all)])
+		e.normAt++
+	}
+	return out
 }
 
 // otherContexts: contexts different from ctx — edited at either end, and sharing the first
@@ -1690,6 +1729,19 @@ func (e *engine) otherContexts(ctx string) []string {
 			// ctx followed by padding up to the cut and a tail: agrees with ctx on all of ctx
 			pad := strings.Repeat("\x00", cut-len(b))
 			out = append(out, ctx+pad+"tail", ctx+strings.Repeat(" ", cut-len(b)+1))
+		}
+	}
+	// images of ctx under the normalisations of harness/norm (hash of a long context under every
+	// hash, truncation / padding to a block, trimming, case and unicode folding, recoding)
+	have := map[string]bool{ctx: true}
+	for _, c := range out {
+		have[c] = true
+	}
+	for _, nf := range e.normSample(6) {
+		if y := string(nf.F([]byte(ctx))); !have[y] {
+			have[y] = true
+			out = append(out, y)
+			e.rep.Branches["gen.ctx-normalised"]++
 		}
 	}
 	return out
@@ -1746,7 +1798,7 @@ func subsetClasses(c cfg) map[string][][]int {
 var c18Branches = []string{"ctxhash", "keys.none", "keys.below", "keys.at", "keys.above", "gen.keyless-grant", "gen.relabel", "gen.ctx-prefix", "gen.ctx-long",
 	"encctx", "kdctx", "wire.opened", "wire.locked", "wire.err.contextMismatch", "wire.err.decryptionFailed", "wire.err.recover",
 	"wire.err.unmarshal", "wire.err.noGrants", "wire.err.noKeypairs", "decode.ok", "decode.err",
-	"gen.alias", "gen.ctx", "gen.threshold-max", "gen.short-grant-ct", "gen.short-ct"}
+	"gen.alias", "gen.ctx", "gen.ctx-normalised", "norm.ctxhash", "norm.ctxstring", "gen.threshold-max", "gen.short-grant-ct", "gen.short-ct"}
 
 func (e *engine) runC18() {
 	e.rep.Rule = "sealed envelopes (configurations from the C16 bound with decryptable grants) unlocked under other contexts; every top-level field replaced (envelope id, context hash, threshold incl. 2^32-1, ciphertext bit flips / truncations below and above the nonce size / foreign ciphertext, grants dropped / duplicated / swapped / keypair indexes rewritten / ciphertexts flipped and truncated to 0..52 bytes, keypairs dropped / reordered / garbage), grants re-encrypted by an outsider with aliased, duplicated, zero, mis-sized share ids and garbage plaintexts, wire-level bit flips / truncations / random bytes; the model predicts the exact outcome on the bytes; distinct = distinct op line"
